@@ -18,6 +18,7 @@ TABLE = [
  ("routeacc","RouteCalls",  "RouteMenu",  "GenesisRoute",     '{"eth"}',        "ModsAcceptAll", (1, 3, 1), (1, 3, 2)),
  ("routemix","RouteCalls",  "RouteMenu",  "GenesisRoute",     '{"eth"}',        "ModsMixed",     (1, 3, 1), (1, 3, 2)),
  ("routefail","RouteCalls", "RouteMenu",  "GenesisRoute",     '{"eth"}',        "Mods0",         (1, 3, 1), (1, 3, 2)),
+ ("stake",   "StakeCalls",  "StakeMenu",  "GenesisStake", '{"eth"}',        "ModsStake",     (3, 3, 1), (4, 3, 2)),
 ]
 for name, calls, menu, gen, den, mods, q, t in TABLE:
     addrmode = "percode" if name == "percode" else "simple"
